@@ -313,6 +313,16 @@ def worker_side(ctx):
         metas.append(m)
     verdicts, stats = tlc.validate_batch("ShutdownTrace", "ShutdownTrace.cfg", traces, name="ShutdownTrace_C04")
     ctx.add_traces(len(traces), stats)
+
+    def rerun(k):
+        if k < len(plan):
+            runner(k)
+            if isinstance(results[k], Exception):
+                raise results[k]
+            return results[k]
+        a = bplan[k - len(plan)]
+        return run_boot_stop(a[0], a[1])
+    tlc.repeat_failing(ctx, "ShutdownTrace", "ShutdownTrace.cfg", traces, metas, verdicts, range(len(traces)), rerun, "ShutdownTrace_C04")
     ctx.coverage["real_process_shutdowns"] = len(traces)
     for t, m, (v, step) in zip(traces, metas, verdicts):
         if v == "ok":
